@@ -3,8 +3,8 @@
    through all flatten levels, for ALL descriptor sets; it is the reader as it is, or an error. *)
 From Coq Require Import String List NArith Bool.
 From J5V.lib Require Import Outcome.
-From J5V.model Require Import ReflectDesc ReflectSchema Reflect ReflectOwn ReflectNames.
-From J5V.proofs Require Import ReflectProofs ReflectInvProofs ReflectFlattenProofs ReflectFuelProofs ReflectOwnProofs.
+From J5V.model Require Import ReflectDesc ReflectSchema Reflect ReflectOwn ReflectNames ReflectSpec.
+From J5V.proofs Require Import ReflectProofs ReflectInvProofs ReflectPathProofs ReflectFlattenProofs ReflectFuelProofs ReflectOwnProofs.
 Import ListNotations.
 
 Lemma lookup_in_entry (S : sset) k e : lookup S k = Some e -> exists k', In (k', e) S.
@@ -161,4 +161,26 @@ Proof.
   - split; [intros p; discriminate|discriminate].
   - split; [exact (fun p H => Hp p H)|discriminate].
   - exfalso. exact (Hf eq_refl).
+Qed.
+
+(* every clause of the property at once for the repaired reader, under wf_paths *)
+Theorem o_reflect_checked_full_on_supported D fs :
+  ReflectPathProofs.wf_paths D ->
+  (forall s, o_reflect_checked D fs <> Panic s) /\ o_reflect_checked D fs <> OutOfFuel /\
+  forall S ow, o_reflect_checked D fs = Ok (S, ow) ->
+    ReflectSpec.set_consistent D S = true /\
+    (forall k r, lookup S k = Some (Linked r) -> exists cps, client_props_of S r = Ok cps /\ NoDup (map p_json cps)) /\
+    forall m r, In m (d_msgs D) -> lookup S (msg_key m) = Some (Linked r) ->
+      exists pfs, new_prop_set D S r m = Ok pfs /\
+        ((forall q f, In (q, Some f) pfs -> ReflectSpec.supported_b (p_schema q) f = true) ->
+         (forall q k n d ops opfs p2 f2, In (q, None) pfs -> p_schema q = FOneof k None None None ->
+            lookup S k = Some (Linked (ROneof n d ops)) -> new_prop_set D S (ROneof n d ops) m = Ok opfs ->
+            In (p2, Some f2) opfs -> ReflectSpec.supported_b (p_schema p2) f2 = true) ->
+         ReflectSpec.codec_classes D S m r = (0%N, 0%N) /\ ReflectSpec.codec_classes_strict D S m r = (0%N, 0%N)).
+Proof.
+  intros Hwp. destruct (o_reflect_checked_total D (proj1 Hwp) fs) as [Hp Hf].
+  split; [exact Hp|]. split; [exact Hf|].
+  intros S ow HC. destruct (o_reflect_full_on_supported D fs Hwp) as (_ & _ & Hok).
+  destruct (Hok S ow (o_reflect_checked_ok D fs (S, ow) HC)) as [Hc Hm].
+  split; [exact Hc|]. split; [exact (o_reflect_checked_client_names D fs S ow HC)|exact Hm].
 Qed.
